@@ -569,7 +569,7 @@ fn c15(tier: Tier, seed: u64) -> i32 {
         sc.filesystem = r.chance(0.25);
         sc
     });
-    let n6 = ctx.n(160, 4_000);
+    let n6 = ctx.n(120, 4_000);
     ctx.run_batch("crash_between_store_writes", "sync writer over the in-memory store with a snapshot after EVERY store write (set / erase, metadata included): a process that stops between two store writes - in the middle of a later record_sample, of a later flush, of the warmup->sampling switch or of finalize - must still find every prefix acknowledged by the flushes that had returned before that write (up to 160 crash points per run, evenly strided)", n6, |rs, _| {
         let mut sc = gen_store(rs, "C15", &[Backend::ZarrSync]);
         let mut r = Prng::sub(rs, "crashwrite");
@@ -578,7 +578,7 @@ fn c15(tier: Tier, seed: u64) -> i32 {
         sc.vars.truncate(4);
         sc
     });
-    let n7 = ctx.n(80, 1_000);
+    let n7 = ctx.n(60, 1_000);
     ctx.run_batch("async_crash_between_store_writes", "async writer: the same crash points - a snapshot after every write that reaches the store, in whatever order tokio completes the queued writes (seeded delays) - each must hold the prefixes acknowledged by the flushes that had returned by then", n7, |rs, _| {
         let mut sc = gen_store(rs, "C15", &[Backend::ZarrAsync]);
         let mut r = Prng::sub(rs, "asynccrash");
